@@ -18,7 +18,8 @@ EXPLANATION = (
     "write_mate_reference_sequence_name (comparison of the two names) and expanded by the parser's mate arm."
     " (R5) reused destination: every entry->Ok path of parse_record_buf and try_clone_from_alignment_record overwrites or clears each of the twelve columns (a `*` sentinel must reset the column, not skip it); (R6) append-buffer discipline: every read_line/read_until site of the SAM readers and of the BAM header's text reader is preceded, on all entry paths and all cycles, by a reset of the buffer it appends to."
     " (R7) the SAM-text header sub-reader state machine (sam, bam, cram; sync and async) performs per trait method the same constant stores into its state fields as the majority of its ten copies."
-    " R3 also decides that the binary reference list replaces the text dictionary only behind the is_empty() edge (sync and async), so @SQ fields that exist only in the text are not dropped.")
+    " R3 also decides that the binary reference list replaces the text dictionary only behind the is_empty() edge (sync and async), so @SQ fields that exist only in the text are not dropped."
+    " (R8) a function outside the type's module that takes the raw bytes of a 4-bit packed sequence also consults the base count (decoding the bytes alone writes the padding nibble of an odd-length read as a base).")
 ASSUMPTIONS = ["float formatting/parsing, integer width selection for `i` tags and the header grammar are value-level (unit tests)"]
 NOT_DECIDED = ["float text forms, integer tag widths, fixed-point byte equality, full header record grammar and field order",
                "equality of SAM- and BAM-read records beyond the shared data model"]
